@@ -220,6 +220,8 @@ pub struct TxInfo {
     pub multicast: bool,
     pub data: Vec<u8>,
     pub msg: Result<Message, String>,
+    /// Multicast to another port than the one the daemons of this world use: no peer hears it.
+    pub misdirected: bool,
 }
 
 #[derive(Clone, Debug)]
@@ -565,6 +567,8 @@ pub struct World {
     pub livelocks: u64,
     pub total_iterations: u64,
     ms_steps: u64,
+    /// The UDP port every daemon of this world is created on (5353 unless a scenario says otherwise, before adding hosts).
+    pub port: u16,
     seed: u64,
 }
 
@@ -623,6 +627,7 @@ impl World {
             livelocks: 0,
             total_iterations: 0,
             ms_steps: 0,
+            port: 5353,
             seed,
         }
     }
@@ -672,7 +677,7 @@ impl World {
             }
         }
         hooks::sim_next_daemon(ctx.clone());
-        let daemon = ServiceDaemon::new().expect("daemon creation");
+        let daemon = if self.port == 5353 { ServiceDaemon::new() } else { ServiceDaemon::new_with_port(self.port) }.expect("daemon creation");
         self.hosts.push(Host {
             id,
             tag,
@@ -1125,8 +1130,12 @@ impl World {
                 multicast,
                 data: e.data.clone(),
                 msg,
+                misdirected: multicast && e.dest.port() != self.port,
             }),
         });
+        if multicast && e.dest.port() != self.port {
+            return;
+        }
         let Some(oi) = out_if else {
             return;
         };
@@ -1146,8 +1155,8 @@ impl World {
             }
         };
         let src = match src_ip {
-            IpAddr::V4(ip) => SocketAddr::V4(SocketAddrV4::new(ip, 5353)),
-            IpAddr::V6(ip) => SocketAddr::V6(SocketAddrV6::new(ip, 5353, 0, out.index)),
+            IpAddr::V4(ip) => SocketAddr::V4(SocketAddrV4::new(ip, self.port)),
+            IpAddr::V6(ip) => SocketAddr::V6(SocketAddrV6::new(ip, self.port, 0, out.index)),
         };
         let (loop_v4, loop_v6) = {
             let g = self.hosts[h].ctx.lock();
@@ -1170,7 +1179,7 @@ impl World {
                         }
                     }
                     targets.push((hid, i.index));
-                } else if i.addrs.iter().any(|(a, _)| *a == e.dest.ip()) && e.dest.port() == 5353 {
+                } else if i.addrs.iter().any(|(a, _)| *a == e.dest.ip()) && e.dest.port() == self.port {
                     targets.push((hid, i.index));
                 }
             }
